@@ -6,8 +6,8 @@
    StaticGlue.model_lib flt tok: the reading of pathlib / os over Model/Fs.v (flt: the storage fault of the
    upload model, tok: the value of secrets.token_hex).  Calls between the translated functions are calls between
    the generated definitions, so the theorems about handle / handle_upload cover the whole call tree below them.
-   The vocabulary of the statements (nul_guard, contained, index_names_ok, tmp_ok, norm_resp, resp_of_sout,
-   upload_out, model_out) is defined in Equiv/StaticGlue.v. *)
+   The vocabulary of the statements (nul_guard, contained, norm_resp, resp_of_sout, upload_out, model_out) is
+   defined in Equiv/StaticGlue.v. *)
 From Coq Require Import List NArith ZArith Bool.
 From NV Require Import Prelude.Str Prelude.Res Prelude.Utf8 Model.Fs Model.Static Model.CertAuth.
 From NV Require Import Equiv.StaticGlue Gen.StaticGen.
@@ -32,30 +32,18 @@ Theorem mime_tie : forall L c f p, gen_get_mime_type L c f p = Ok (mime_of p).
 Proof. exact EquivStatic_proofs.mime_tie. Qed.
 Print Assumptions mime_tie.
 
-(* StaticFileHandler.handle: the whole method.  The unconditional statement is FALSE (handle_tie_refuted below:
-   an index name that resolves to an over-long name inside the root makes is_file() raise; confirmed on the real
-   code, the model is at fault); it holds for well-behaved index names. *)
-Theorem handle_tie_partial : forall flt tok c f url,
-  index_names_ok c f ->
+(* StaticFileHandler.handle: the whole method (canonical path, complete resolution, containment, the index loop with
+   its own resolution and containment test, listing, size limit, decoding); exact, no hypothesis.
+   History: against the first version of Model/Static.v this statement was FALSE - an index name that resolves to a
+   path inside the root with a component of more than 255 bytes makes is_file() raise OSError(ENAMETOOLONG) out of
+   handle(), where the model went on to the next index name; the model also joined `d / name` as a single component
+   (pathlib splits at slashes and lets an absolute name replace d) and did not skip an index name with a NUL.  Each
+   was confirmed on the real code, the model was at fault and was corrected (try_indices); the computed example is
+   EquivStatic_proofs.index_over_long_raises. *)
+Theorem handle_tie : forall flt tok c f url,
   norm_resp (gen_handle (model_lib flt tok) c f url) = resp_of_sout (handle c f url).
-Proof. exact EquivStatic_proofs.handle_tie_partial. Qed.
-Print Assumptions handle_tie_partial.
-
-Theorem handle_tie_refuted :
-  norm_resp (gen_handle (model_lib None []) EquivStatic_proofs.cx1_cfg EquivStatic_proofs.cx1_fs (lit "/d/"))
-  = Err (lit "oserror") [] /\
-  resp_of_sout (handle EquivStatic_proofs.cx1_cfg EquivStatic_proofs.cx1_fs (lit "/d/"))
-  = Ok (mk_gresp 20 (lit "text/gemini") (GFile [lit "r"; lit "d"; lit "index.gemini"] (lit "hello"))).
-Proof. exact EquivStatic_proofs.handle_tie_refuted. Qed.
-Print Assumptions handle_tie_refuted.
-
-(* ... and the generated handle IS the model with the correction proposed in StaticGlue.handle_fixed /
-   try_indices_fixed (is_file() raising on an over-long resolved index path; `d / name` joined as pathlib does;
-   a NUL in an index name skipped): no hypothesis *)
-Theorem handle_tie_fixed_model : forall flt tok c f url,
-  norm_resp (gen_handle (model_lib flt tok) c f url) = resp_of_sout (handle_fixed c f url).
-Proof. exact EquivStatic_proofs.handle_tie_fixed_model. Qed.
-Print Assumptions handle_tie_fixed_model.
+Proof. exact EquivStatic_proofs.handle_tie. Qed.
+Print Assumptions handle_tie.
 
 (* FileUploadHandler._is_safe_path; exact, for every library *)
 Theorem upload_is_safe_path_tie : forall L c f p,
@@ -74,60 +62,24 @@ Theorem handle_delete_tie : forall flt tok c f r,
   token_ok c (q_token r) = true -> (u_max c <? q_size r)%N = false ->
   match u_types c with Some (t :: ts) => negb (existsb (eqb (q_mime r)) (t :: ts)) | _ => false end = false ->
   q_size r = 0%N ->
-  upload_out (gen_handle_delete (model_lib flt tok) c f (q_path r)) = model_out (handle_upload c f r flt).
+  upload_out (gen_handle_delete (model_lib flt tok) c f (q_path r)) = model_out (handle_upload c f r flt tok).
 Proof. exact EquivStatic_proofs.handle_delete_upload_tie. Qed.
 Print Assumptions handle_delete_tie.
 
-(* FileUploadHandler.handle_upload: the whole method (admission checks, delete, path resolution, temp file, rename,
-   cleanup of what the upload itself created).  The unconditional statement is FALSE in three ways (below; each
-   confirmed on the real code, the model is at fault); it holds when the temporary file's name is usable. *)
-Theorem handle_upload_tie_partial : forall flt tok c f r,
-  (forall t, resolve_target c f (q_path r) = Ok (Some t) -> q_size r <> 0%N -> tmp_ok f t tok) ->
-  upload_out (gen_handle_upload (model_lib flt tok) c f r) = model_out (handle_upload c f r flt).
-Proof. exact EquivStatic_proofs.handle_upload_tie_partial. Qed.
-Print Assumptions handle_upload_tie_partial.
-
-(* ... and the generated handle_upload IS the model with the corrections proposed in StaticGlue.handle_upload_fixed
-   (the temporary name must be short enough and free, else 40 with only the parent directories created): no hypothesis *)
-Theorem handle_upload_tie_fixed_model : forall flt tok c f r,
-  upload_out (gen_handle_upload (model_lib flt tok) c f r) = model_out (handle_upload_fixed c f r flt tok).
-Proof. exact EquivStatic_proofs.handle_upload_tie_fixed_model. Qed.
-Print Assumptions handle_upload_tie_fixed_model.
-
-(* the corrected model is Model.Static.handle_upload wherever the temporary name is usable *)
-Theorem upload_fixed_agrees : forall flt tok c f r,
-  (forall t, resolve_target c f (q_path r) = Ok (Some t) -> q_size r <> 0%N -> tmp_ok f t tok) ->
-  handle_upload_fixed c f r flt tok = handle_upload c f r flt.
-Proof. exact EquivStatic_proofs.upload_fixed_agrees. Qed.
-Print Assumptions upload_fixed_agrees.
-
-Import EquivStatic_proofs.
-(* a target name of 234..255 bytes: the temporary name is over-long, the upload fails (40); the model says 20 *)
-Theorem upload_tie_refuted_tmp_name :
-  fst (upload_out (gen_handle_upload (model_lib None (lit "0123456789abcdef")) cx_ucfg [([lit "u"], Dir)] (cx_req (47%N :: name240))))
-  = UResp 40 [] /\
-  fst (model_out (handle_upload cx_ucfg [([lit "u"], Dir)] (cx_req (47%N :: name240)) None)) = UResp 20 [].
-Proof. exact EquivStatic_proofs.upload_tie_refuted_tmp_name. Qed.
-Print Assumptions upload_tie_refuted_tmp_name.
-
-(* an over-long last component below missing directories: the directories are created before the failure *)
-Theorem upload_tie_refuted_mkdir :
-  snd (upload_out (gen_handle_upload (model_lib None (lit "0123456789abcdef")) cx_ucfg [([lit "u"], Dir)]
-                     (cx_req (lit "/p/q/" ++ long_name))))
-  = [([lit "u"], Dir); ([lit "u"; lit "p"], Dir); ([lit "u"; lit "p"; lit "q"], Dir)] /\
-  snd (model_out (handle_upload cx_ucfg [([lit "u"], Dir)] (cx_req (lit "/p/q/" ++ long_name)) None)) = [([lit "u"], Dir)].
-Proof. exact EquivStatic_proofs.upload_tie_refuted_mkdir. Qed.
-Print Assumptions upload_tie_refuted_mkdir.
-
-(* a file with the temporary name exists: the upload fails (40) and that file is left alone (the defect found by the
-   previous version of this theorem - the cleanup handler unlinked it - is repaired by /repo commit 998dfce); the
-   model still reports success *)
-Theorem upload_tie_refuted_tmp_exists :
-  upload_out (gen_handle_upload (model_lib None (lit "0123456789abcdef")) cx_ucfg cx4_fs (cx_req (lit "/a")))
-  = (UResp 40 [], cx4_fs) /\
-  fst (model_out (handle_upload cx_ucfg cx4_fs (cx_req (lit "/a")) None)) = UResp 20 [].
-Proof. exact EquivStatic_proofs.upload_tie_refuted_tmp_exists. Qed.
-Print Assumptions upload_tie_refuted_tmp_exists.
+(* FileUploadHandler.handle_upload: the whole method (admission checks, delete, path resolution, parent directories,
+   temp file created exclusively, write, rename, cleanup of what the upload itself created); exact, no hypothesis.
+   tok is the value of secrets.token_hex(8), the random part of the temporary file's name.
+   History: against the first version of Model/Static.v (which knew no temporary file) this statement was FALSE in
+   three ways, each confirmed on the real code, the model being at fault: (a) a target name of 234..255 bytes makes
+   the temporary name ".<name>.<16 hex>.tmp" over-long: 40, not 20; (b) an over-long last component below missing
+   directories: the directories are created before the failure; (c) a file that already carries the temporary name:
+   40, everything unchanged (that this file survives is /repo commit 998dfce: the first version of this tie found
+   that the cleanup handler unlinked it).  The model was corrected (handle_upload's tok argument, tmp_of); computed
+   examples: EquivStatic_proofs.upload_tmp_name_over_long, upload_over_long_mkdir, upload_tmp_exists. *)
+Theorem handle_upload_tie : forall flt tok c f r,
+  upload_out (gen_handle_upload (model_lib flt tok) c f r) = model_out (handle_upload c f r flt tok).
+Proof. exact EquivStatic_proofs.handle_upload_tie. Qed.
+Print Assumptions handle_upload_tie.
 
 (* the l_canon field of the instance is the canonical_path_segments translated in Gen/PyGen.v, over the model's unquote *)
 Theorem canon_lib_tie : forall flt tok p up, unquote p = Ok up ->
